@@ -8,6 +8,18 @@ LEVEL = 'proof'
 
 def check(repo, rep):
     feed(rep, repo, 'C04', 'c04')
+    # constructor facts that C04 relies on (oracle binding) come with the general runs
+    from ..tokrun import analyse
+    d = analyse(repo)
+    for r in d['runs']:
+        ct = r.get('ctor')
+        if ct:
+            for o in ct['obligations']:
+                if 'C04' in o['props']:
+                    rep.obligations.append(dict(rule=o['rule'], ok=o['ok'], where=o['where']))
+            for a in ct['alarms']:
+                if 'C04' in a['props'] and not a.get('imprecise'):
+                    rep.violations.append(dict(rule=a['rule'], construct='StreamTokenizer.__init__', where=a['where'], message=a['rule'], detail=dict(branch_conditions=a['conds'])))
     rep.explanation = EXPL + (" C04: with init_min <= 1 added to the parameter region, for every reachable abstract state and input the "
                               "code's events (frame kept?, token delivered with which start/end?, open-piece length and continuation status "
                               "afterwards) are compared with the reference step function below, evaluated on the ghost state "
@@ -18,3 +30,12 @@ def check(repo, rep):
     rep.trusted_base = TRUSTED + ['that the reference step function printed in this evidence file is the operational reading of C04 (by inspection, 20 lines)']
     rep.assumptions = ASSUME
     rep.floor('C04 obligations', len(rep.obligations), 300)
+
+
+def thorough(repo, rep):
+    from ..linear_selfcheck import run
+    r = run()
+    rep.extra['arithmetic_core_selfcheck'] = r
+    if r['unsound']:
+        rep.unknown('the Fourier-Motzkin core disagreed with brute force on %d of %d random systems: no verdict of this check can be trusted' % (r['unsound'], r['systems']))
+    print('arithmetic core self-check: %s' % r)
